@@ -443,6 +443,32 @@ def gen_cases_ext(rng, tier, n_classes, immutable=False):
                 ops.append(op)
         for fo in fmt_ops:
             ops.insert(rng.randrange(len(ops) + 1), fo)
+        # typed wrappers at nesting depth 2 and 3 (x.w[i][j].append(v)): addressed by a path of keys
+        if rng.random() < 0.35 and not any(n == "w" for n, _ in case["cls"]["fields"]):
+            case = dict(case, cls=json.loads(json.dumps(case["cls"])), kw=list(case["kw"]))
+            leaf = rng.choice([{"k": "integer"}, {"k": "string"}, {"k": "integer", "min": [0, 1]}])
+            inner = rng.choice([{"k": "seqOf", "item": leaf}, {"k": "seqOf", "item": leaf, "seq": "deque"},
+                                {"k": "mapOf", "key": {"k": "string"}, "val": leaf}])
+            mid = rng.choice([{"k": "seqOf", "item": inner}, {"k": "mapOf", "key": {"k": "string"}, "val": inner},
+                              {"k": "seqOf", "item": inner, "maxItems": 2}])
+            top = rng.choice([{"k": "seqOf", "item": mid}, {"k": "mapOf", "key": {"k": "string"}, "val": mid}])
+            case["cls"]["fields"].append(["w", top])
+            C.fix_accepts(case["cls"])
+            lv = lambda: 1 if leaf["k"] == "integer" else "s"
+            mk_inner = lambda: {"m": [["k", lv()]]} if inner["k"] == "mapOf" else ({"q": [lv()]} if inner.get("seq") == "deque" else {"l": [lv()]})
+            mk_mid = lambda: {"m": [["a", mk_inner()]]} if mid["k"] == "mapOf" else {"l": [mk_inner()]}
+            case["kw"].append(["w", {"m": [["t", mk_mid()]]} if top["k"] == "mapOf" else {"l": [mk_mid()]}])
+            k1 = "t" if top["k"] == "mapOf" else 0
+            k2 = "a" if mid["k"] == "mapOf" else 0
+            for _ in range(rng.randint(2, 5)):
+                deep = rng.random() < 0.7
+                decl, path = (inner, [k1, k2]) if deep else (mid, [k1])
+                if rng.random() < 0.12:
+                    path = path[:-1] + [rng.choice([5, "nokey"])]
+                call = gen_ext_call(rng, vg, tbl, wrapper_kind(decl), decl, None)
+                if call:
+                    ops.insert(rng.randrange(len(ops) + 1),
+                               {"op": "callNested", "f": "w", "k": {"l": path}, "m": call[0], "args": call[1], **call[2]})
         ext = dict(case, ops=ops, ext=True)
         # a hook of the second family: "one of these fields must hold a value", over fields the start instance holds,
         # with operations that try to clear them (None assignment, deletion)
@@ -506,7 +532,13 @@ def do_op(x, op, ctx, refs=None):
         outer = getattr(x, op["f"])
         if outer is None:
             raise AttributeError("field is not set")     # canonical "no value to operate on"
-        invoke(outer[k], op, ctx)
+        if isinstance(k, list):      # a path of keys: x.f[k1][k2]...
+            target = outer
+            for kk in k:
+                target = target[kk]
+            invoke(target, op, ctx)
+        else:
+            invoke(outer[k], op, ctx)
     elif name == "take":
         # a take that finds no wrapper still occupies its position (None), so that later positions do not shift
         w = getattr(x, op["f"]) if op["f"] in x.__dict__ else None
@@ -603,6 +635,11 @@ def op_site(case, op):
         return f"{wrapper_kind(fd) if fd else '?'}.{op['m']}"
     if op["op"] == "callNested":
         ed = elem_decl(coll_option(fd)) if fd else None
+        k = op.get("k")
+        if isinstance(k, dict) and "l" in k:      # a path: follow the declarations
+            ed = coll_option(fd) if fd else None
+            for _ in k["l"]:
+                ed = elem_decl(ed) if ed else None
         return f"nested-{wrapper_kind(ed) if ed else '?'}.{op['m']}"
     if op["op"] == "setattr":
         return "setattr:" + (fd["k"] if fd else "non-field")
